@@ -15,7 +15,8 @@ RULE = ("parameter trees (sequence/choice nesting, every optional marking, incl.
         ' ; repeating parameters as tuples; a wrapper whose named type lives in another namespace'
         ' ; xsd:all below the top level; partial dicts and objects filled out of order'
         ' ; a wrapper of a namespace without prefix; allowUnknownMessageParts does not relax argument checking'
-        ' ; lists and None items for repeating and single parameters; a wildcard among the parameters')
+        ' ; lists and None items for repeating and single parameters; a wildcard among the parameters'
+        ' ; wrapper elements that name their type')
 ASSUMPTIONS = ["ancestry items are compared by identity (`is`), modelled as unique ids",
                "Python dict preserves keyword insertion order (first leftover keyword is reported)"]
 PARTIAL = [
